@@ -105,43 +105,48 @@ def check(ctx) -> None:
         raise AnalysisError("_AbstractOrderedSet.__getitem__ implementation vanished")
     ctx.analysed(gi)
     idx = gi.args.args[1].arg
-    cfg = CFG(gi)
-    norm_nodes = set()
-    for n in cfg.nodes:
-        if n.kind == "test" and isinstance(n.stmt, ast.If):
-            t = n.stmt.test
-            if isinstance(t, ast.Compare) and norm(t.left) == idx and len(t.ops) == 1 and isinstance(t.ops[0], ast.Lt) and norm(t.comparators[0]) == "0":
-                for s in n.stmt.body:
-                    if isinstance(s, ast.AugAssign) and norm(s.target) == idx and isinstance(s.op, ast.Add) and "len(" in norm(s.value):
-                        norm_nodes.add(n.id)
-                    if isinstance(s, ast.Assign) and norm(s.targets[0]) == idx and "len(" in norm(s.value) and idx in norm(s.value):
-                        norm_nodes.add(n.id)
-    verdicts = []
-    for n in cfg.nodes:
-        if n.kind == "stmt" and isinstance(n.stmt, ast.Return) and n.stmt.value is not None:
-            v = n.stmt.value
-            # (b) subscript of a materialised sequence handles negatives natively
-            if isinstance(v, ast.Subscript) and norm(v.slice) == idx and isinstance(v.value, ast.Call) and norm(v.value.func) in ("tuple", "list"):
-                verdicts.append((n, True, "subscript of materialised sequence"))
-                continue
-            # return guarded by `<counter> == index`
-            guard = None
-            for a in _anc(n.stmt):
-                if isinstance(a, ast.If) and isinstance(a.test, ast.Compare) and len(a.test.ops) == 1 and isinstance(a.test.ops[0], ast.Eq):
-                    sides = {norm(a.test.left), norm(a.test.comparators[0])}
-                    if idx in sides:
-                        guard = a
-            if guard is not None:
-                p = cfg.path([cfg.entry], [n.id], avoid_nodes=norm_nodes)
-                ctx.paths += 1
-                verdicts.append((n, p is None, "position equality after normalisation" if p is None else "position equality with a non-negative counter, index never normalised"))
-            elif isinstance(v, ast.Call) and "islice" in norm(v.func):
-                p = cfg.path([cfg.entry], [n.id], avoid_nodes=norm_nodes)
-                verdicts.append((n, p is None, "islice needs a non-negative index"))
-    if not verdicts:
-        ctx.undecide("C34.neg", gi, "no return of __getitem__ matches a known idiom")
-    for n, ok, why in verdicts:
-        ctx.check("C34.neg", n.stmt, ok, f"_AbstractOrderedSet.__getitem__ cannot return for a negative index: {why}", what=why)
+    # Abstract evaluation of the index arithmetic over a boundary partition of (size, index):
+    # the guards are linear comparisons of `index`, the size and constants, so the representatives
+    # {-size-1, -size, -size+1, -1, 0, size-1, size} are decisive for every off-by-one.
+    undecided = None
+    wrong = []
+    n_cases = 0
+    for size in (1, 2, 3, 5):
+        for index in range(-size - 2, size + 3):
+            out = _eval_getitem(gi, idx, size, index)
+            n_cases += 1
+            if out is None:
+                undecided = (size, index)
+                break
+            want = "return" if -size <= index < size else "raise"
+            if out != want:
+                wrong.append((size, index, out, want))
+        if undecided:
+            break
+    ctx.extra["getitem_partition_cases"] = n_cases
+    if undecided:
+        ctx.undecide("C34.neg", gi, f"__getitem__ uses a construct the index evaluator cannot interpret (size={undecided[0]}, index={undecided[1]})")
+    else:
+        neg = [w for w in wrong if w[1] < 0]
+        ctx.check(
+            "C34.neg",
+            gi,
+            not neg,
+            "_AbstractOrderedSet.__getitem__ does not return for a valid negative index: "
+            + "; ".join(f"len={sz}, index={ix}: {o} (expected {w})" for sz, ix, o, w in neg[:3]),
+            what=f"__getitem__ returns for every index in [-len, -1] ({n_cases} boundary cases evaluated)",
+            stmt="[negative-index]",
+        )
+        pos = [w for w in wrong if w[1] >= 0]
+        ctx.check(
+            "C34.neg",
+            gi,
+            not pos,
+            "_AbstractOrderedSet.__getitem__ mishandles a non-negative index: "
+            + "; ".join(f"len={sz}, index={ix}: {o} (expected {w})" for sz, ix, o, w in pos[:3]),
+            what="__getitem__ returns for [0, len) and raises beyond",
+            stmt="[non-negative-index]",
+        )
 
     # ---------------------------------------------------------------- C34.order
     for cname in CLASSES[:3]:
@@ -170,6 +175,105 @@ def check(ctx) -> None:
     add = repo.func(MOD, "OrderedSet.add")
     ok = any(isinstance(n, ast.Assign) and isinstance(n.targets[0], ast.Subscript) and norm(n.targets[0].value) == "self._items" for n in own_nodes(add))
     ctx.check("C34.order", add, ok, "OrderedSet.add does not insert into the backing dict by key (re-adding must keep the first position)", what="add: _items[value] = None")
+
+
+class _Undecided(Exception):
+    pass
+
+
+def _eval_getitem(fn, idx, size, index):
+    """Evaluate the index arithmetic of __getitem__ for a concrete (size, index): 'return' | 'raise' | None."""
+    env = {idx: index}
+
+    def ev(e):
+        if isinstance(e, ast.Constant) and isinstance(e.value, (int, bool)):
+            return e.value
+        if isinstance(e, ast.Name):
+            if e.id in env:
+                return env[e.id]
+            raise _Undecided
+        if isinstance(e, ast.Call) and norm(e.func) == "len" and len(e.args) == 1 and norm(e.args[0]) in ("self", "self._items", "self._items.keys()"):
+            return size
+        if isinstance(e, ast.Call) and norm(e.func) == "isinstance" and norm(e.args[0]) == idx:
+            return norm(e.args[1]) in ("int",)
+        if isinstance(e, ast.UnaryOp):
+            v = ev(e.operand)
+            if isinstance(e.op, ast.USub):
+                return -v
+            if isinstance(e.op, ast.Not):
+                return not v
+            raise _Undecided
+        if isinstance(e, ast.BinOp):
+            l, r = ev(e.left), ev(e.right)
+            if isinstance(e.op, ast.Add):
+                return l + r
+            if isinstance(e.op, ast.Sub):
+                return l - r
+            if isinstance(e.op, ast.Mod) and r != 0:
+                return l % r
+            raise _Undecided
+        if isinstance(e, ast.BoolOp):
+            vals = [ev(v) for v in e.values]
+            return all(vals) if isinstance(e.op, ast.And) else any(vals)
+        if isinstance(e, ast.Compare):
+            left = ev(e.left)
+            for op, c in zip(e.ops, e.comparators):
+                right = ev(c)
+                ok = {ast.Lt: left < right, ast.LtE: left <= right, ast.Gt: left > right, ast.GtE: left >= right, ast.Eq: left == right, ast.NotEq: left != right}.get(type(op))
+                if ok is None:
+                    raise _Undecided
+                if not ok:
+                    return False
+                left = right
+            return True
+        raise _Undecided
+
+    def run(stmts):
+        for s in stmts:
+            if (isinstance(s, ast.Expr) and isinstance(s.value, ast.Constant)) or isinstance(s, ast.Pass):
+                continue
+            if isinstance(s, ast.If):
+                r = run(s.body if ev(s.test) else s.orelse)
+                if r:
+                    return r
+            elif isinstance(s, ast.Raise):
+                return "raise"
+            elif isinstance(s, ast.Assign) and len(s.targets) == 1 and isinstance(s.targets[0], ast.Name):
+                env[s.targets[0].id] = ev(s.value)
+            elif isinstance(s, ast.AugAssign) and isinstance(s.target, ast.Name) and isinstance(s.op, (ast.Add, ast.Sub)):
+                v = ev(s.value)
+                env[s.target.id] = env[s.target.id] + v if isinstance(s.op, ast.Add) else env[s.target.id] - v
+            elif isinstance(s, ast.For) and isinstance(s.iter, ast.Call) and norm(s.iter.func) == "enumerate" and isinstance(s.target, ast.Tuple):
+                # `for i, key in enumerate(<items>): if i == index: return key` -> returns iff 0 <= index < size
+                cnt = s.target.elts[0].id
+                for i in range(size):
+                    env[cnt] = i
+                    r = run(s.body)
+                    if r:
+                        return r
+            elif isinstance(s, ast.Return):
+                v = s.value
+                if isinstance(v, ast.Name):
+                    return "return"
+                if isinstance(v, ast.Subscript) and isinstance(v.value, ast.Call) and norm(v.value.func) in ("tuple", "list"):
+                    k = ev(v.slice)
+                    return "return" if -size <= k < size else "raise"
+                if isinstance(v, ast.Call) and norm(v.func) == "next" and v.args and isinstance(v.args[0], ast.Call) and norm(v.args[0].func).endswith("islice"):
+                    k = ev(v.args[0].args[1])
+                    # islice rejects negative start; next() on an exhausted slice raises StopIteration
+                    return "return" if 0 <= k < size else "raise"
+                raise _Undecided
+            else:
+                raise _Undecided
+        return None
+
+    try:
+        body = [s for s in fn.body]
+        # the isinstance(index, slice) arm is irrelevant for ints
+        r = run(body)
+        return r or "raise"
+    except (_Undecided, KeyError, TypeError):
+        return None
 
 
 def _anc(n):
